@@ -322,11 +322,13 @@ def processHand (dev : Dev) (st : SState) (msg : Req) : SState × List Out × Op
   else if isPoll msg then (st, st.treqs.flatMap (pollOne dev), none)
   else (st, [], some .unknownType)
 
+set_option linter.unusedSimpArgs false in
 /-- the interpreter on the extracted chain is that dispatch. -/
 theorem process_eq (dev : Dev) (st : SState) (msg : Req) : process dev st msg = processHand dev st msg := by
   unfold process processHand
   cases hs : isSub msg <;> cases hp : isPoll msg <;> cases hh : st.req.isSome <;>
-    simp [Generated.subProcessChain, List.find?, atomHolds, refusalKind, doSubscribe, hs, hp, hh, Option.isNone_iff_eq_none] <;>
+    simp [Generated.subProcessChain, List.find?, atomHolds, refusalKind, doSubscribe, hs, hp, hh, Option.isNone_iff_eq_none,
+      Option.isSome_iff_ne_none] <;>
     (first | rfl | (cases hr : st.req <;> simp_all))
 
 /-- number of leading poll messages. -/
